@@ -48,7 +48,7 @@ class C16(Prop):
         for _ in range(n): out.append(self.legend_item(rng))
         tags = ['{a}', '{a,b}', '{big_1}', '{a}{b}', '{a} {b}', '{a}x', 'x{a}', '{a,}', '{}', '{a', '{a b}', '{1a}', '{é}', '{a,b,c}']
         for _ in range(n):
-            k = rng.choice(['box', 'rbox', 'circle', 'nested', 'beside', 'outside', 'multi', 'siblings', 'titled'])
+            k = rng.choice(['box', 'rbox', 'circle', 'nested', 'beside', 'outside', 'multi', 'siblings', 'titled', 'around', 'around'])
             tg = rng.choice(tags)
             if k == 'box':
                 w = rng.randint(len(tg), 14)
@@ -72,6 +72,19 @@ class C16(Prop):
                 rows = gens.box(20, 6)
                 rows = gens.overlay(rows, [rng.choice(['Title', 'ab cd', 'x'])], 2, 1)
                 rows = gens.overlay(rows, gens.box(8, 1, rng.choice(['++++', "..''"]), '-', '|', [tg[:8]]), rng.choice([2, 8]), 3)
+            elif k == 'around':
+                # a tag next to a shape but outside it: left or right of it on an interior row, above or below it within its columns;
+                # also with a second (tagged or empty) box on the other side.  It stays text and names nothing.
+                bw = rng.randint(3, 8); bh = rng.randint(1, 3); t2 = tg if len(tg) <= 6 else '{a}'
+                box = gens.box(bw, bh, rng.choice(['++++', "..''"]), '-', '|', [rng.choice(['', '{z}'])[:bw]])
+                side = rng.choice(['left', 'right', 'above', 'below'])
+                if side == 'left': rows = [(' ' * (len(t2) + 1) + r) for r in box]; j = rng.randint(1, bh); rows[j] = t2 + ' ' + box[j]
+                elif side == 'right': rows = list(box); j = rng.randint(1, bh); rows[j] = box[j] + ' ' + t2
+                elif side == 'above': rows = [' ' * rng.randint(0, 2) + t2, ''] + box
+                else: rows = box + ['', ' ' * rng.randint(0, 2) + t2]
+                if rng.random() < 0.4 and side in ('left', 'right'):
+                    other = gens.box(4, bh, '++++', '-', '|', [rng.choice(['', '{y}'])])
+                    rows = [(o + '  ' + r) if side == 'right' else (r + '  ' + o) for r, o in zip(rows, other)]
             elif k == 'beside': rows = gens.box(12, 1, '++++', '-', '|', [tg + ' label'])
             elif k == 'outside': rows = gens.box(4, 1) + ['', tg]
             else: rows = gens.box(14, 3, '++++', '-', '|', [tg, 'hello', rng.choice(tags)])
